@@ -124,7 +124,7 @@ def discharge(ob, timeout_s=10, second_solver=False):
     t0 = time.time()
     if ob.expect_sat:
         qf = [h for h in ob.hyps if not is_quantified(h)]
-        st, model, _ = _check(ob.hyps, timeout_s * 1000)
+        st, model, _ = _check(ob.hyps, 1500)
         if st == UNKNOWN:
             st2, model, _ = _check(qf, timeout_s * 1000)
             st = SAT if st2 == SAT else st2
@@ -136,28 +136,42 @@ def discharge(ob, timeout_s=10, second_solver=False):
         ob.time = time.time() - t0
         return ob
     query = ob.hyps + [z3.Not(ob.goal)]
-    st, model, solver = _check(query, timeout_s * 1000)
-    ob.backend = "z3-5.1(py)"
     has_q = any(is_quantified(f) for f in query)
-    if st == UNKNOWN or (st == SAT and has_q):
-        # quantified hypotheses: try a finite instantiation (sound for unsat)
+    first = timeout_s * 1000 if not has_q else min(3000, timeout_s * 1000)
+    st, model, solver = _check(query, first)
+    ob.backend = "z3-5.1(py)"
+    if st == SAT and has_q:
+        ob.backend = "z3-5.1(py) (model of the quantified query)"
+    if st == UNKNOWN:
+        # quantified hypotheses: finite instantiation (sound for unsat: it only weakens the hypotheses)
         inst = instantiate(query, rounds=2)
         st2, model2, _ = _check(inst, timeout_s * 1000)
         if st2 == UNSAT:
             st, model = UNSAT, None
             ob.backend = "z3-5.1(py)+ground-instantiation"
-        elif st == UNKNOWN:
+        else:
             smt2 = solver.to_smt2()
+            ext_t = max(3, timeout_s // 2)
             for tool in ("cvc5", "z3-4.8"):
-                r = external(smt2, tool, timeout_s)
+                r = external(smt2, tool, ext_t)
                 if r == UNSAT:
                     st, model = UNSAT, None
                     ob.backend = tool
                     break
+                if r == SAT:
+                    st, model = SAT, model2
+                    ob.backend = tool + " (sat); witness from z3 ground instantiation"
+                    break
             else:
                 if st2 == SAT:
                     st, model = "candidate", model2
-                    ob.backend = "z3-5.1(py) ground-instantiation model (hypotheses weakened)"
+                    ob.backend = "not proved by z3-5.1/cvc5/z3-4.8; counter-model of the ground-instantiated query"
+                else:
+                    st2b, _m, _s = _check(query, timeout_s * 1000)
+                    if st2b == UNSAT:
+                        st, model = UNSAT, None
+                    elif st2b == SAT:
+                        st, model = SAT, _m
     if st == UNSAT and second_solver:
         r = external(solver.to_smt2(), "cvc5", timeout_s)
         ob.second = r
